@@ -27,6 +27,7 @@ import Proofs.SecondPass
 import Proofs.Total
 import Proofs.Ties
 import Proofs.TiesRun
+import Proofs.TiesMore
 namespace Coma.Props
 open Coma Coma.Spec
 
@@ -159,11 +160,11 @@ theorem C07_refine_error_kind (c : SecCfg) (ref q : OMap) (rev : Bool) (peak : I
     runs to completion in EVERY output mode -/
 theorem C07_seeded_run_total (cfg : Cfg) (c : SecCfg) (mode : Mode) (hP : GoodParams cfg.P) (refs qs : List OMap) (pt : PTable) (it : Int)
     (hres : 1 ≤ c.res) (hb : 0 ≤ c.blur)
-    (hrefs : ∀ r ∈ refs, StrictAscending r.positions) (hqs : ∀ q ∈ qs, StrictAscending q.positions ∧ q.shift = 0)
+    (hrefs : ∀ r ∈ refs, Ascending r.positions) (hqs : ∀ q ∈ qs, Ascending q.positions ∧ q.shift = 0)
     (hids : (qs.map (·.id)).Nodup) (hrid : (refs.map (·.id)).Nodup)
     (hpt : Coma.Proofs.PTableOK c refs qs pt) :
     ∃ d out, deriveTable c refs qs pt = .ok d ∧ execute cfg mode refs d.table qs it = .ok out :=
-  Coma.Proofs.seeded_execute_total cfg c mode hP refs qs pt it hres hb hrefs hqs hids hrid hpt
+  Coma.Proofs.seeded_execute_total_weak cfg c mode hP refs qs pt it hres hb hrefs hqs hids hrid hpt
 
 /-- the hypothesis of `C07_seeded_run_total` holds for every peak the primary stage can select: a primary peak is the
     centre of an INTERIOR lag `k` of the primary correlation (scipy's `find_peaks` never returns the first or the last
